@@ -2,6 +2,8 @@
 import os
 from . import common as C
 from . import refcheck as R
+from . import gen_text as G
+from . import pipeline as PL
 
 ACCEPT_MARKS = ("diagnostics", "no tree", "parse_check_lex tree", "tree oracle", "stray top-level tokens")
 
@@ -36,6 +38,17 @@ def check(ctx):
                              "replay_how": "echo '<input>' | /verif/harness/target/debug/oq3-run tree   (field errors= must be empty)"})
         else:
             nontriv += 1
+    # literals beyond 128 bits are lexically and syntactically ordinary literals (what the analyser makes of their
+    # value is not C04's business): integers of every radix with more significant digits than u128 holds, floats with
+    # hundreds of digits, very long bit strings and identifiers
+    big = [str(2 ** 128), str(2 ** 128 + 1), str(2 ** 200), "0x" + "F" * 33, "0x" + "f" * 40, "0b" + "1" * 129, "0b" + "10" * 70,
+           "0o" + "7" * 44, "1" + "0" * 60 + ".5", "0." + "3" * 400, "1e400", "\"" + "01" * 300 + "\"", "x" * 300]
+    btexts = [t % b for b in big for t in ("int[200] v = %s;", "v = %s;", "%s;", "f(%s, 1);", "if (a == %s) { }")]
+    bout = C.run_impl(ctx, "tree", [G.enc(t) for t in btexts], tag="big")
+    for t, o in zip(btexts, bout):
+        if PL.canon_panic(o) or PL.fields(o).get("errors", "") != "" or PL.fields(o).get("clerrors", "") != "":
+            failures.append({"case": G.enc(t), "check": "accepted", "detail": {"text": t, "what": (PL.fields(o).get("errors", "") if not PL.canon_panic(o) else o)[:300]},
+                             "guards": set(), "model_agrees": False, "replay_how": "echo '<input>' | /verif/harness/target/debug/oq3-run tree   (fields errors= / clerrors= must be empty)"})
     # accepted programs stay accepted when they reach the parser through real include files / the file entry point
     from . import incwrap as IW
     IW.through_entry_points(ctx, "C04", [r["case"]["text"] for r in recs if not r["panic"] and not split_mismatch(r["cst"])[0]], failures)
